@@ -5,6 +5,7 @@ package main
 
 import (
 	"fmt"
+	"go/constant"
 	"go/token"
 	"sort"
 	"strings"
@@ -36,7 +37,134 @@ func (g *congr) key(v ssa.Value, depth int) string {
 	return k
 }
 
+// helperResult: call is g(…, x, …, y, …) of a repository function where the two arguments of the
+// candidates' type are congruent; when every return of g that is reachable with those two
+// parameters equal yields the same constant for result idx, that constant.
+func (g *congr) helperResult(call *ssa.Call, idx int, depth int) (string, bool) {
+	callee := call.Call.StaticCallee()
+	if callee == nil || call.Call.IsInvoke() || callee.Blocks == nil || !strings.Contains(funcName(callee), modPath) || congrDepth >= 2 {
+		return "", false
+	}
+	// the two parameters bound to congruent arguments that are themselves the candidates (key "E")
+	var pa, pb *ssa.Parameter
+	for i, a := range call.Call.Args {
+		if i < len(callee.Params) && g.key(a, depth+1) == "E" {
+			if pa == nil {
+				pa = callee.Params[i]
+			} else if pb == nil {
+				pb = callee.Params[i]
+			}
+		}
+	}
+	if pa == nil || pb == nil {
+		return "", false
+	}
+	congrDepth++
+	rvs, _ := congruentReturns(callee, pa, pb)
+	congrDepth--
+	val := ""
+	for _, rv := range rvs {
+		if rv.infeasible != "" || idx >= len(rv.keys) {
+			continue
+		}
+		k := rv.keys[idx]
+		if k != "const:true" && k != "const:false" {
+			// a boolean the path itself has decided
+			if why, isFalse := falseUnder(k, rv.facts); isFalse && why != "" {
+				k = "const:false"
+			} else {
+				return "", false
+			}
+		}
+		if val != "" && val != k {
+			return "", false
+		}
+		val = k
+	}
+	if val == "" {
+		return "", false
+	}
+	return val, true
+}
+
+// shortCircuit: the key of a two-edge phi that is the value of `X && Y` or `X || Y`.
+func (g *congr) shortCircuit(p *ssa.Phi, depth int) (string, bool) {
+	if len(p.Edges) != 2 || !isBoolType(p.Type()) {
+		return "", false
+	}
+	J := p.Block()
+	for ci := 0; ci < 2; ci++ {
+		kc, ok := p.Edges[ci].(*ssa.Const)
+		if !ok || kc.Value == nil || kc.Value.Kind() != constant.Bool {
+			continue
+		}
+		cval := constant.BoolVal(kc.Value)
+		d := J.Preds[ci] // the block that tested X and jumped straight to the join
+		iff, ok := d.Instrs[len(d.Instrs)-1].(*ssa.If)
+		if !ok {
+			continue
+		}
+		si := -1
+		for i, sc := range d.Succs {
+			if sc == J {
+				si = i
+			}
+		}
+		if si < 0 || d.Succs[0] == d.Succs[1] {
+			continue
+		}
+		kx := g.key(iff.Cond, depth+1)
+		if si == 0 {
+			// reached when X is true … the other operand is evaluated when X is false
+			kx = negKey(kx)
+		}
+		// now: the constant arrives when kx is FALSE; Y is evaluated when kx is true
+		ky := g.key(p.Edges[1-ci], depth+1)
+		if !cval {
+			return andKey(kx, ky), true // kx ? Y : false
+		}
+		return orKey(negKey(kx), ky), true // kx ? Y : true  ==  !kx || Y
+	}
+	return "", false
+}
+
+func andKey(a, b string) string {
+	switch {
+	case a == "const:false" || b == "const:false" || a == negKey(b):
+		return "const:false"
+	case a == "const:true":
+		return b
+	case b == "const:true" || a == b:
+		return a
+	}
+	if b < a {
+		a, b = b, a
+	}
+	return "and(" + a + "," + b + ")"
+}
+
+func orKey(a, b string) string {
+	switch {
+	case a == "const:true" || b == "const:true" || a == negKey(b):
+		return "const:true"
+	case a == "const:false":
+		return b
+	case b == "const:false" || a == b:
+		return a
+	}
+	if b < a {
+		a, b = b, a
+	}
+	return "or(" + a + "," + b + ")"
+}
+
 func negKey(k string) string {
+	if k == "const:true" {
+		return "const:false"
+	}
+	if k == "const:false" {
+		return "const:true"
+	}
 	if strings.HasPrefix(k, "!") {
 		return k[1:]
 	}
@@ -93,7 +221,17 @@ func (g *congr) compute(v ssa.Value, depth int) string {
 		return g.key(x.X, depth+1)
 	case *ssa.ChangeType:
 		return g.key(x.X, depth+1)
+	case *ssa.Extract:
+		if call, ok := x.Tuple.(*ssa.Call); ok {
+			if k, ok := g.helperResult(call, x.Index, depth); ok {
+				return k
+			}
+			return fmt.Sprintf("%s#%d", g.key(call, depth+1), x.Index)
+		}
 	case *ssa.Call:
+		if k, ok := g.helperResult(x, 0, depth); ok && x.Call.Signature().Results().Len() == 1 {
+			return k
+		}
 		if callee := x.Call.StaticCallee(); callee != nil && !x.Call.IsInvoke() {
 			parts := []string{}
 			for _, a := range x.Call.Args {
@@ -109,6 +247,11 @@ func (g *congr) compute(v ssa.Value, depth int) string {
 			return "invoke:" + x.Call.Method.Name() + "(" + strings.Join(parts, ",") + ")"
 		}
 	case *ssa.Phi:
+		// X && Y / X || Y: two edges, one a boolean constant arriving straight from the block that
+		// tested X — simplified with the usual identities (K && !K is false, K || !K is true)
+		if k, ok := g.shortCircuit(x, depth); ok {
+			return k
+		}
 		// value of a short-circuit expression: the operands plus the condition that chose between them
 		var parts []string
 		for _, e := range x.Edges {
@@ -126,86 +269,134 @@ func (g *congr) compute(v ssa.Value, depth int) string {
 	return fmt.Sprintf("opaque:%p", v)
 }
 
+// retVerdict: one return of a function analysed with two of its parameters identified.
+type retVerdict struct {
+	ret        *ssa.Return
+	infeasible string   // non-empty: not reachable with the two parameters equal, and why
+	keys       []string // congruence key of each result
+	facts      map[string]bool
+}
+
+var congrDepth = 0
+
+// congruentReturns analyses f with parameters pa and pb identified: for every return, whether
+// it can be reached at all (its path conditions are consistent when pa == pb) and the
+// congruence keys of its results.
+func congruentReturns(f *ssa.Function, pa, pb *ssa.Parameter) ([]retVerdict, *congr) {
+	g := &congr{a: pa, b: pb, memo: map[ssa.Value]string{}}
+	var out []retVerdict
+	for _, rb := range f.Blocks {
+		ret, ok := rb.Instrs[len(rb.Instrs)-1].(*ssa.Return)
+		if !ok {
+			continue
+		}
+		rv := retVerdict{ret: ret, facts: map[string]bool{}}
+		var addFactRec func(k string, truth bool)
+		addFact := func(k string, truth bool) {
+			if strings.HasPrefix(k, "!") {
+				k, truth = k[1:], !truth
+			}
+			if k == "const:true" || k == "const:false" {
+				if (k == "const:true") != truth {
+					rv.infeasible = "a test whose outcome is fixed when the candidates are equal"
+				}
+				return
+			}
+			// and(a,b) true: both hold; or(a,b) false: neither holds
+			if (strings.HasPrefix(k, "and(") && truth) || (strings.HasPrefix(k, "or(") && !truth) {
+				inner := k[strings.Index(k, "(")+1 : len(k)-1]
+				if l, r, ok := splitTop(inner); ok {
+					addFactRec(l, truth)
+					addFactRec(r, truth)
+					return
+				}
+			}
+			if old, has := rv.facts[k]; has && old != truth {
+				rv.infeasible = "contradicting tests of " + k
+			}
+			rv.facts[k] = truth
+			if strings.HasPrefix(k, "eql(") || strings.HasPrefix(k, "lss(") {
+				if l, r, ok := splitTop(k[4 : len(k)-1]); ok && l == r {
+					if (strings.HasPrefix(k, "eql(") && !truth) || (strings.HasPrefix(k, "lss(") && truth) {
+						rv.infeasible = "a test that distinguishes the candidates (" + k + ")"
+					}
+				}
+			}
+		}
+		addFactRec = addFact
+		for _, b := range f.Blocks {
+			iff, ok := b.Instrs[len(b.Instrs)-1].(*ssa.If)
+			if !ok {
+				continue
+			}
+			for i := 0; i < 2; i++ {
+				if edgesDominate(f, []cfgEdge{{b, i}}, rb) && !edgesDominate(f, []cfgEdge{{b, 1 - i}}, rb) {
+					addFact(g.key(iff.Cond, 0), i == 0)
+				}
+			}
+		}
+		for _, r := range ret.Results {
+			rv.keys = append(rv.keys, g.key(r, 0))
+		}
+		out = append(out, rv)
+	}
+	return out, g
+}
+
+// falseUnder: the (boolean) result with key k is false given the facts of its path.
+func falseUnder(k string, facts map[string]bool) (string, bool) {
+	truth := true
+	if strings.HasPrefix(k, "!") {
+		k, truth = k[1:], false
+	}
+	switch {
+	case k == "const:false" && truth, k == "const:true" && !truth:
+		return "returns false", true
+	}
+	if t, has := facts[k]; has && t != truth {
+		return "returns a value the path has tested to be false", true
+	}
+	if strings.HasPrefix(k, "lss(") || strings.HasPrefix(k, "eql(") {
+		if l, r, ok := splitTop(k[4 : len(k)-1]); ok && l == r {
+			if (strings.HasPrefix(k, "lss(") && truth) || (strings.HasPrefix(k, "eql(") && !truth) {
+				return "returns a strict comparison of the same criterion of both candidates", true
+			}
+		}
+	}
+	return "", false
+}
+
 func ruleF8irr(c *Ctx) {
-	c.doc("F8irr", "the candidate comparators are irreflexive: with the two candidates equal in every criterion (the second parameter renamed to the first) every return yields false, so a tie keeps the earlier table row and never depends on which candidate happens to be called a. A `return true` guarded by a test of one candidate only is the typical violation")
+	c.doc("F8irr", "the candidate comparators are irreflexive: with the two candidates equal in every criterion (the second parameter renamed to the first, helpers that take both candidates analysed the same way) every return yields false, so a tie keeps the earlier table row and never depends on which candidate happens to be called a. A `return true` guarded by a test of one candidate only is the typical violation")
 	for _, fn := range []string{"findBestEncodingForSignExtendable", "findBestEncodingForNonSignExtendable"} {
 		f := c.L.SSAFunc("pkg/asmdb", fn)
 		if f == nil || len(f.Params) < 2 {
 			c.anchorMissing("F8irr", "asmdb."+fn)
 			continue
 		}
-		g := &congr{a: f.Params[0], b: f.Params[1], memo: map[ssa.Value]string{}}
+		rvs, _ := congruentReturns(f, f.Params[0], f.Params[1])
 		nret := 0
-		for _, rb := range f.Blocks {
-			ret, ok := rb.Instrs[len(rb.Instrs)-1].(*ssa.Return)
-			if !ok || len(ret.Results) != 1 {
+		for _, rv := range rvs {
+			if len(rv.ret.Results) != 1 {
 				continue
 			}
 			nret++
 			key := fmt.Sprintf("%s|return#%d", fn, nret)
-			pos := c.L.Pos(retPos(ret))
-			// facts: conditions of the branches every path to this return takes
-			facts := map[string]bool{}
-			infeasible := ""
-			addFact := func(k string, truth bool) {
-				if strings.HasPrefix(k, "!") {
-					k, truth = k[1:], !truth
-				}
-				if old, has := facts[k]; has && old != truth {
-					infeasible = "contradicting tests of " + k
-				}
-				facts[k] = truth
-				// a test that compares a value with itself
-				if strings.HasPrefix(k, "eql(") || strings.HasPrefix(k, "lss(") {
-					inner := k[4 : len(k)-1]
-					if l, r, ok := splitTop(inner); ok && l == r {
-						if (strings.HasPrefix(k, "eql(") && !truth) || (strings.HasPrefix(k, "lss(") && truth) {
-							infeasible = "a test that distinguishes the candidates (" + k + ")"
-						}
-					}
-				}
-			}
-			for _, b := range f.Blocks {
-				iff, ok := b.Instrs[len(b.Instrs)-1].(*ssa.If)
-				if !ok {
-					continue
-				}
-				for i := 0; i < 2; i++ {
-					if edgesDominate(f, []cfgEdge{{b, i}}, rb) && !edgesDominate(f, []cfgEdge{{b, 1 - i}}, rb) {
-						addFact(g.key(iff.Cond, 0), i == 0)
-					}
-				}
-			}
-			v := ret.Results[0]
-			if infeasible != "" {
-				c.ok("F8irr", key, pos, "not reachable with equal candidates: "+infeasible)
+			pos := c.L.Pos(retPos(rv.ret))
+			v := rv.ret.Results[0]
+			if rv.infeasible != "" {
+				c.ok("F8irr", key, pos, "not reachable with equal candidates: "+rv.infeasible)
 				continue
 			}
-			vk := g.key(v, 0)
-			truth := true
-			if strings.HasPrefix(vk, "!") {
-				vk, truth = vk[1:], false
+			if why, ok := falseUnder(rv.keys[0], rv.facts); ok {
+				c.ok("F8irr", key, pos, why)
+				continue
 			}
-			switch {
-			case vk == "const:false" && truth, vk == "const:true" && !truth:
-				c.ok("F8irr", key, pos, "returns false")
-			case func() bool { t, has := facts[vk]; return has && t != truth }():
-				c.ok("F8irr", key, pos, "returns a value the path has tested to be false")
-			case func() bool {
-				if strings.HasPrefix(vk, "lss(") || strings.HasPrefix(vk, "eql(") {
-					l, r, ok := splitTop(vk[4 : len(vk)-1])
-					if ok && l == r {
-						return (strings.HasPrefix(vk, "lss(") && truth) || (strings.HasPrefix(vk, "eql(") && !truth)
-					}
-				}
-				return false
-			}():
-				c.ok("F8irr", key, pos, "returns a strict comparison of the same criterion of both candidates")
-			case isLoSwitchResult(v):
+			if isLoSwitchResult(v) {
 				c.ok("F8irr", key, pos, "decided by a lo.Switch table: rows with equal flags are checked by rule F8c (preference rows)")
-			default:
-				c.fail("F8irr", key, pos, fmt.Sprintf("%s can return true for two candidates that agree in every criterion (returned value: %s; tests on the way: %s): the choice then depends on the order of the table rows, not on the ranking", fn, valueText(v), factText(facts)))
+				continue
 			}
+			c.fail("F8irr", key, pos, fmt.Sprintf("%s can return true for two candidates that agree in every criterion (returned value: %s; tests on the way: %s): the choice then depends on the order of the table rows, not on the ranking", fn, valueText(v), factText(rv.facts)))
 		}
 		c.check(nret >= 3, "F8irr", fn+"|returns found", c.L.Pos(f.Pos()), fmt.Sprintf("%d", nret))
 	}
